@@ -13,6 +13,17 @@ validation wrappers of /repo/src/classic/generichash_blake2b.rs.
   `blake2b_simd.rs` shares that code verbatim with `blake2b_soft.rs` and differs only in
   `compress`.  `update = updateC compress`, etc.
 * `zeroize` calls have no functional effect and are omitted.
+* LAYOUT ASSUMPTION: `paramBytes` lists the fields of `struct Params` in DECLARATION order.  The Rust struct is
+  `#[repr(packed)]` WITHOUT `repr(C)` (`#[repr(packed)]` alone is `repr(Rust, packed)`): the language does not promise
+  declaration order for it, only that there is no padding; `init_param` reads it as raw bytes
+  (`from_raw_parts(params as *const u8, size_of::<Params>())`).  That rustc keeps the declared order here (all fields
+  have alignment 1, nothing to reorder for) is an observation about the compiler, checked only by the differential
+  runs against libsodium / RFC 7693 vectors, not by anything in this model.
+* `generichashFinal st m` takes the OUTPUT length `m` as its own argument: the Rust does not compare it with the `outlen`
+  given to `init` (`Proofs/Blake2bFinalLen.lean`, `C08.generichash_final_any_len`).
+* `hash … (some [])` (an EMPTY key passed as `Some`) absorbs a 128-byte zero block although the parameter block says
+  "unkeyed", exactly as the code does — off RFC 7693, unreachable through the public API
+  (`C07.blake2b_hash_some_nil`).
 -/
 namespace DryocVerif.Model.Blake2b
 open DryocVerif
